@@ -267,6 +267,16 @@ def run_systematic(spec, rec):
     for name in ('Z0Z', 'Z00', 'ZZ0', 'Z1', 'Z', '', 'ZZZZ', 'zzz', 'pid', '123', 'MSH', 'ZA '):
         for body in ('|1', '', '|', '|1^2&3~4'):
             probe(HAND[0] + '\r' + name + body, rec, bases)
+    # a second (malformed) MSH line, segment names in other letter cases, blank characters as delimiters
+    for line in ('MSH_\x7f\x7fH&~', 'MsH_\x7f&~&^~^c^^&', 'msh|^~\\&|x', 'MSH', 'MSH|', 'MSH|^~\\&', 'MSH^~|\\&|a', 'pid|1||x',
+                 'Pid|1', 'MSH|^~\\&|A|B|C|D|20200101||ADT^A01^ADT_A01|2|P|2.5'):
+        for head in (HAND[0], HAND[1], 'MSH|^~\\&|~&\x00uuk', 'MSH|^~\\&|~|||!||!||>E~'):
+            probe(head + '\r' + line, rec, bases)
+            rec.count('second_msh_probes')
+    for seps in ('^~\\\n', '^~\\ ', ' ~\\&', '^\t\\&', '^~\\&\n', '\n~\\&'):
+        for tail in ('', '\rMSH|^~\\', '|A|B|C|D|20200101||ADT^A01^ADT_A01|1|P|2.5\rPID|1||x y&z'):
+            probe('MSH|' + seps + tail, rec, bases)
+            rec.count('blank_delimiter_probes')
     # every segment whose table rows are malformed (C02 findings), named explicitly in a message of its version
     for v in tables.versions():
         segs = tables.segments(v)
